@@ -33,11 +33,13 @@ VARIABLES
   decoded,      \* the handler has copied the request
   readAfterReturn,
   bud, nhdr, ntrl, ncancel,
-  lviol
+  lviol,
+  ev            \* the API event the last step emitted (NoEv for internal steps); binds traces, hidden by a VIEW otherwise
 
 lvars == <<ch, chClosed, spc, cpc, hdrs, hdrsSent, tlrs, outcome, gotResponse, hdrOut, trlOut,
            msgOut, decoded, readAfterReturn, bud, nhdr, ntrl, ncancel, lviol>>
-allvars == <<vars, lvars>>
+allvars == <<vars, lvars, ev>>
+ViewNoEv == <<vars, lvars>>
 
 FH(s) == [t |-> "H", v |-> 0, w |-> s]
 FD    == [t |-> "D", v |-> 1, w |-> <<>>]
@@ -50,6 +52,16 @@ RCtx == [k |-> "err", code |-> CtxCode, st |-> 0, raw |-> FALSE]
 RSt(s) == [k |-> "err", code |-> 13, st |-> s, raw |-> FALSE]
 RLib == [k |-> "err", code |-> 13, st |-> 0, raw |-> FALSE]
 StRec(s) == [st |-> s, code |-> IF s = 0 THEN 0 ELSE 13, ctxerr |-> FALSE]
+
+RMisuse == [k |-> "err", code |-> 2, st |-> 0, raw |-> TRUE]
+NoEv == [n |-> "", a |-> 0, k |-> "", cat |-> "", m |-> 0, v |-> <<>>, t |-> <<>>]
+Cat(r) == IF r.k # "err" THEN ""
+          ELSE IF r.st > 0 THEN "hst"
+          ELSE IF r.code = 13 THEN "lib"
+          ELSE IF r.code = 2 /\ r.raw THEN "misuse"
+          ELSE "ctx"
+Emit(n, a, r, m, v, t) == ev' = [n |-> n, a |-> a, k |-> r.k, cat |-> Cat(r), m |-> m, v |-> v, t |-> t]
+Quiet == ev' = NoEv
 
 CDone == cctx # "live"
 \* the server's context: child of the caller's, cancelled when Invoke returns
@@ -65,6 +77,7 @@ Init ==
   /\ decoded = "no" /\ readAfterReturn = FALSE
   /\ bud = NH /\ nhdr = 0 /\ ntrl = 0 /\ ncancel = 0
   /\ lviol = {}
+  /\ ev = NoEv
 
 Viol(S) == lviol' = lviol \cup S
 NoViol == lviol' = lviol
@@ -73,7 +86,7 @@ NoViol == lviol' = lviol
 CStart ==
   /\ cpc = "idle"
   /\ cpc' = "loop" /\ spc' = "start"
-  /\ Ev_CInvokeCall /\ NoViol
+  /\ Ev_CInvokeCall /\ NoViol /\ Emit("CInvokeCall", 0, RNil, 0, <<>>, <<>>)
   /\ UNCHANGED <<ch, chClosed, hdrs, hdrsSent, tlrs, outcome, gotResponse, hdrOut, trlOut, msgOut,
                  decoded, readAfterReturn, bud, nhdr, ntrl, ncancel>>
 
@@ -81,7 +94,7 @@ CStart ==
 SrvStart ==
   /\ spc = "start"
   /\ spc' = "handler"
-  /\ Ev_HStart /\ Viol(Chk_HStart(<<>>))
+  /\ Ev_HStart /\ Viol(Chk_HStart(<<>>)) /\ Quiet
   /\ UNCHANGED <<ch, chClosed, cpc, hdrs, hdrsSent, tlrs, outcome, gotResponse, hdrOut, trlOut, msgOut,
                  decoded, readAfterReturn, bud, nhdr, ntrl, ncancel>>
 
@@ -91,7 +104,7 @@ SrvStart ==
 HDecodeCall ==
   /\ spc = "handler" /\ decoded = "no" /\ bud > 0
   /\ bud' = bud - 1 /\ decoded' = "calling"
-  /\ Ev_HRecvCall /\ NoViol
+  /\ Ev_HRecvCall /\ NoViol /\ Emit("HRecvCall", 0, RNil, 0, <<>>, <<>>)
   /\ UNCHANGED <<ch, chClosed, spc, cpc, hdrs, hdrsSent, tlrs, outcome, gotResponse, hdrOut, trlOut,
                  msgOut, readAfterReturn, nhdr, ntrl, ncancel>>
 
@@ -103,8 +116,9 @@ HDecodeRet ==
        THEN /\ UNCHANGED readAfterReturn
             /\ Ev_HRecvRet([k |-> "err", code |-> 1, st |-> 0, raw |-> FALSE], 0)
             /\ Viol(Chk_HRecvRet([k |-> "err", code |-> 1, st |-> 0, raw |-> FALSE], 0))
+            /\ Emit("HRecvRet", 0, [k |-> "err", code |-> 1, st |-> 0, raw |-> FALSE], 0, <<>>, <<>>)
        ELSE /\ readAfterReturn' = (readAfterReturn \/ cpc = "returned")
-            /\ Ev_HRecvRet(RNil, 1) /\ Viol(Chk_HRecvRet(RNil, 1))
+            /\ Ev_HRecvRet(RNil, 1) /\ Viol(Chk_HRecvRet(RNil, 1)) /\ Emit("HRecvRet", 0, RNil, 1, <<>>, <<>>)
   /\ UNCHANGED <<ch, chClosed, spc, cpc, hdrs, hdrsSent, tlrs, outcome, gotResponse, hdrOut, trlOut,
                  msgOut, bud, nhdr, ntrl, ncancel>>
 
@@ -117,7 +131,9 @@ HSetHeader(send) ==
        /\ hdrsSent' = (hdrsSent \/ (ok /\ send))
        /\ IF send
             THEN Ev_HSendHeaderAtomic(nhdr + 1, ok) /\ Viol(Chk_HSendHeaderAtomic(nhdr + 1, ok))
+                 /\ Emit("HSendHeaderRet", nhdr + 1, IF ok THEN RNil ELSE RMisuse, 0, <<>>, <<>>)
             ELSE Ev_HSetHeaderRet(nhdr + 1, ok) /\ Viol(Chk_HSetHeaderRet(nhdr + 1, ok))
+                 /\ Emit("HSetHeaderRet", nhdr + 1, IF ok THEN RNil ELSE RMisuse, 0, <<>>, <<>>)
   /\ UNCHANGED <<ch, chClosed, spc, cpc, tlrs, outcome, gotResponse, hdrOut, trlOut, msgOut,
                  decoded, readAfterReturn, ntrl, ncancel>>
 
@@ -125,7 +141,7 @@ HSetTrailer ==
   /\ spc = "handler" /\ bud > 0 /\ ntrl < MaxTrl /\ decoded # "calling"
   /\ bud' = bud - 1 /\ ntrl' = ntrl + 1
   /\ tlrs' = Append(tlrs, ntrl + 1)
-  /\ Ev_HSetTrailerRet(ntrl + 1, TRUE) /\ NoViol
+  /\ Ev_HSetTrailerRet(ntrl + 1, TRUE) /\ NoViol /\ Emit("HSetTrailerRet", ntrl + 1, RNil, 0, <<>>, <<>>)
   /\ UNCHANGED <<ch, chClosed, spc, cpc, hdrs, hdrsSent, outcome, gotResponse, hdrOut, trlOut, msgOut,
                  decoded, readAfterReturn, nhdr, ncancel>>
 
@@ -135,6 +151,7 @@ HReturnDo(o) ==
   /\ outcome' = o
   /\ spc' = "handled"
   /\ Ev_HReturn(StRec(IF o = "err" THEN 1 ELSE 0), IF o = "resp" THEN 1 ELSE 0) /\ NoViol
+  /\ Emit("HReturn", IF o = "err" THEN 1 ELSE 0, RNil, IF o = "resp" THEN 1 ELSE 0, <<>>, <<>>)
   /\ UNCHANGED <<ch, chClosed, cpc, hdrs, hdrsSent, tlrs, gotResponse, hdrOut, trlOut, msgOut,
                  decoded, readAfterReturn, bud, nhdr, ntrl, ncancel>>
 
@@ -151,7 +168,7 @@ NextWrite(from) ==
 SrvHandled ==
   /\ spc = "handled"
   /\ spc' = NextWrite("handled")
-  /\ UNCHANGED vars /\ NoViol
+  /\ UNCHANGED vars /\ NoViol /\ Quiet
   /\ UNCHANGED <<ch, chClosed, cpc, hdrs, hdrsSent, tlrs, outcome, gotResponse, hdrOut, trlOut, msgOut,
                  decoded, readAfterReturn, bud, nhdr, ntrl, ncancel>>
 
@@ -164,14 +181,14 @@ SrvWrite ==
        \/ /\ Len(ch) < 1 /\ ch' = Append(ch, f)
        \/ /\ SDone /\ UNCHANGED ch
   /\ spc' = IF FixClosed /\ SDone THEN "close" ELSE NextWrite(spc)
-  /\ UNCHANGED vars /\ NoViol
+  /\ UNCHANGED vars /\ NoViol /\ Quiet
   /\ UNCHANGED <<chClosed, cpc, hdrs, hdrsSent, tlrs, outcome, gotResponse, hdrOut, trlOut, msgOut,
                  decoded, readAfterReturn, bud, nhdr, ntrl, ncancel>>
 
 SrvClose ==
   /\ spc = "close"
   /\ spc' = "done" /\ chClosed' = TRUE
-  /\ UNCHANGED vars /\ NoViol
+  /\ UNCHANGED vars /\ NoViol /\ Quiet
   /\ UNCHANGED <<ch, cpc, hdrs, hdrsSent, tlrs, outcome, gotResponse, hdrOut, trlOut, msgOut,
                  decoded, readAfterReturn, bud, nhdr, ntrl, ncancel>>
 
@@ -179,6 +196,7 @@ Return(res, msg) ==
   /\ cpc' = "returned"
   /\ Ev_CInvokeRet(res, msg)
   /\ Viol(Chk_CInvokeRet(res, msg, hdrOut, trlOut))
+  /\ Emit("CInvokeRet", 0, res, msg, hdrOut, trlOut)
 
 \* one iteration of the caller's loop: select { case r, ok := <-ch ; case <-ctx.Done() }
 CliTake ==
@@ -188,11 +206,11 @@ CliTake ==
      CASE f.t = "E" -> /\ Return(IF f.v = 99 THEN RLib ELSE RSt(f.v), 0)
                        /\ UNCHANGED <<gotResponse, hdrOut, trlOut, msgOut>>
        [] f.t = "D" -> /\ gotResponse' = TRUE /\ msgOut' = f.v
-                       /\ UNCHANGED <<cpc, hdrOut, trlOut>> /\ UNCHANGED vars /\ NoViol
+                       /\ UNCHANGED <<cpc, hdrOut, trlOut>> /\ UNCHANGED vars /\ NoViol /\ Quiet
        [] f.t = "H" -> /\ hdrOut' = f.w
-                       /\ UNCHANGED <<cpc, gotResponse, trlOut, msgOut>> /\ UNCHANGED vars /\ NoViol
+                       /\ UNCHANGED <<cpc, gotResponse, trlOut, msgOut>> /\ UNCHANGED vars /\ NoViol /\ Quiet
        [] OTHER     -> /\ trlOut' = f.w
-                       /\ UNCHANGED <<cpc, gotResponse, hdrOut, msgOut>> /\ UNCHANGED vars /\ NoViol
+                       /\ UNCHANGED <<cpc, gotResponse, hdrOut, msgOut>> /\ UNCHANGED vars /\ NoViol /\ Quiet
   /\ UNCHANGED <<chClosed, spc, hdrs, hdrsSent, tlrs, outcome, decoded, readAfterReturn, bud, nhdr, ntrl, ncancel>>
 
 CliClosed ==
@@ -212,7 +230,7 @@ CliCtxDone ==
 Cancel(why) ==
   /\ cctx = "live" /\ ncancel < 1
   /\ ncancel' = 1
-  /\ Ev_Cancel(why) /\ NoViol
+  /\ Ev_Cancel(why) /\ NoViol /\ Emit("Cancel", IF why = "cancel" THEN 1 ELSE 4, RNil, 0, <<>>, <<>>)
   /\ UNCHANGED <<ch, chClosed, spc, cpc, hdrs, hdrsSent, tlrs, outcome, gotResponse, hdrOut, trlOut,
                  msgOut, decoded, readAfterReturn, bud, nhdr, ntrl>>
 
